@@ -19,7 +19,7 @@ RULE = (
     ";params. Distinct = (url parts, options)."
 )
 ORACLES = [
-    "bytes written before the first read = exactly one write, parsed by a strict HTTP/1.1 request-head parser "
+    "bytes written before the first read (concatenated) = exactly one request, parsed by a strict HTTP/1.1 request-head parser "
     "(request line, token ':' value lines, one empty line, nothing after)",
     "request target == path-or-'/' + '?query'; Host rule of the statement; Upgrade/Connection/Version 13; "
     "Sec-WebSocket-Key == base64 of the 16 bytes drawn from os.urandom for this request (wrapped), fresh per connection",
@@ -191,9 +191,9 @@ def one_connection(obs, case, rand16, tag):
     sock = ws.sock
     first_read = next((i for i, e in enumerate(sock.log) if e[0] in ("R", "T")), len(sock.log))
     writes = [e[1] for e in sock.log[:first_read] if e[0] == "W"]
-    if len(writes) != 1:
-        obs.fail(f"{tag}|not-exactly-one-write", f"{len(writes)} writes before the first read")
-    data = b"".join(writes)
+    if not writes:
+        obs.fail(f"{tag}|nothing-written-before-first-read", "no request bytes before the first read")
+    data = b"".join(writes)  # how many write() calls carry the request is not part of the property; exactly one request is
     secure = parts["scheme"] == "wss"
     if opts.get("via") != "socket":
         if secure != (sock.tls is not None):
